@@ -634,6 +634,90 @@ pub fn gen_wrap_session(seed: u64, index: u64, c: &Corpus) -> Session {
     }
 }
 
+/// *Fail first*: some sixty very short processes. In each, the first thing that happens is a FAILED expansion — a
+/// broken relative of an item (unknown or misplaced helper argument, duplicated attribute, an attribute spread onto
+/// a sibling field: errors raised early and late) — and the next is the healthy item itself, then a near-copy.
+/// Whatever a failed expansion leaves half-registered is new to every table of the process, and the healthy item
+/// is the first to meet it.
+pub fn gen_failfirst_session(seed: u64, index: u64, c: &Corpus) -> Session {
+    let mut r = Rng::new(seed, index);
+    workload::SCALE.with(|s| s.set(1));
+    let mut segments = Vec::new();
+    for n in 0..60usize {
+        let x = if r.chance(2, 3) { workload::family(&mut r, n % workload::N_FAMILIES) } else { r.pick(&c.base).clone() };
+        let mut b = None;
+        for _ in 0..8 {
+            b = workload::breaker(&x, &mut r);
+            if b.is_some() {
+                break;
+            }
+        }
+        let Some(b) = b else { continue };
+        let mut keys = vec![b, x.clone()];
+        let mut reqs = vec![Request { w: 0, k: 0, mode: Mode::Catch }, Request { w: 0, k: 1, mode: Mode::Catch }];
+        if let Some(t) = workload::twin(&x, &mut r) {
+            keys.push(t);
+            reqs.push(Request { w: 0, k: 2, mode: Mode::Catch });
+        }
+        if r.chance(1, 3) {
+            // ... or the failure is met twice before the healthy item
+            reqs.insert(1, Request { w: 0, k: 0, mode: Mode::Catch });
+        }
+        segments.push(Segment {
+            env: if r.chance(1, 4) { gen_env(&mut r, &c.env_names) } else { Env::pristine() },
+            sched: Schedule { keys, workers: 1, requests: reqs, prealloc: vec![], stack_pad: 0, worker_stack_kb: 8192, dump_text: false },
+        });
+    }
+    Session { index, segments }
+}
+
+/// A *flood*: a few small items of the focus family, then giant items of that family until some seventy thousand
+/// distinct names (variants, fields, parameters) have gone through one worker of one process, then the small items
+/// again and fresh ones: ids that outgrow a small integer type, tables that rehash or start evicting, strings that
+/// outgrow an inline capacity. (`wrap` sessions count *expansions* up to 1024; this one counts *names*.)
+pub fn gen_flood_session(seed: u64, index: u64, _c: &Corpus) -> Session {
+    let mut r = Rng::new(seed, index);
+    let focus = ((index / 12) as usize) % workload::N_FAMILIES;
+    let mut keys: Vec<Key> = Vec::new();
+    let mut reqs: Vec<Request> = Vec::new();
+    workload::SCALE.with(|s| s.set(1));
+    let mut small: Vec<usize> = Vec::new();
+    for _ in 0..6 {
+        keys.push(workload::family(&mut r, focus));
+        small.push(keys.len() - 1);
+        reqs.push(Request { w: 0, k: keys.len() - 1, mode: Mode::Catch });
+    }
+    workload::SCALE.with(|s| s.set(40));
+    workload::UNIQ.with(|u| u.set(Some(0)));
+    // (names are counted by their separators; stop after some hundred and thirty thousand, or 600 items)
+    let mut text = 0usize;
+    let mut n = 0;
+    while text < 130_000 && n < 600 {
+        let k = workload::family(&mut r, focus);
+        text += k.item.matches(" , ").count() + 1;
+        n += 1;
+        keys.push(k);
+        reqs.push(Request { w: 0, k: keys.len() - 1, mode: Mode::Catch });
+    }
+    workload::SCALE.with(|s| s.set(1));
+    workload::UNIQ.with(|u| u.set(None));
+    for k in small {
+        reqs.push(Request { w: 0, k, mode: Mode::Catch });
+    }
+    for _ in 0..6 {
+        keys.push(workload::family(&mut r, focus));
+        reqs.push(Request { w: 0, k: keys.len() - 1, mode: Mode::Catch });
+    }
+    let env = gen_env(&mut r, &_c.env_names);
+    Session {
+        index,
+        segments: vec![Segment {
+            env,
+            sched: Schedule { keys, workers: 1, requests: reqs, prealloc: vec![], stack_pad: 0, worker_stack_kb: 8192, dump_text: false },
+        }],
+    }
+}
+
 /// A *sibling sweep*: every harvested item of one group of derives that usually go together
 /// (Deref/DerefMut, Index/IndexMut, Unwrap/TryUnwrap/IsVariant, ...) is expanded under its own derive and,
 /// right after, under each of the other derives of the group — helper attributes of the first derive still on
@@ -687,6 +771,12 @@ pub fn gen_session(seed: u64, index: u64, c: &Corpus) -> Session {
     if index % 12 == 2 {
         return gen_sibling_session(seed, index, c);
     }
+    if index % 12 == 8 {
+        return gen_flood_session(seed, index, c);
+    }
+    if index % 12 == 4 {
+        return gen_failfirst_session(seed, index, c);
+    }
     let big = !hot && r.chance(1, 8);
     // and one session in 16 uses *giant* items (40x: hundreds of variants / fields), few of them
     let giant = !hot && !big && r.chance(1, 14);
@@ -697,6 +787,8 @@ pub fn gen_session(seed: u64, index: u64, c: &Corpus) -> Session {
     let n_family = if hot { r.range(150, 400) } else if giant { r.range(6, 14) } else { r.range(1, 6) };
     let n_base = r.range(3, 40);
     let fault_rate = *r.pick(&[0usize, 5, 10, 20]); // percent of requests that are fault requests
+    // (a hot session always has some: what failed expansions leave behind is what it is there to find)
+    let fault_rate = if hot && fault_rate == 0 { 5 } else { fault_rate };
     let kill_rate = *r.pick(&[0usize, 0, 25, 50]); // percent of fault requests served without catch_unwind
     let family_on: Vec<bool> = (0..workload::N_FAMILIES).map(|_| r.chance(2, 3)).collect();
 
@@ -806,6 +898,12 @@ pub fn gen_session(seed: u64, index: u64, c: &Corpus) -> Session {
                 k: *p,
                 mode: Mode::Catch,
             });
+        }
+    }
+    // ... and in a hot session every broken relative at least once (each walks an error path of its own)
+    if hot {
+        for k in fault_lo..fault_hi {
+            reqs.push(Request { w: r.below(workers), k, mode: Mode::Catch });
         }
     }
     while reqs.len() < len {
@@ -919,6 +1017,28 @@ pub fn gen_session(seed: u64, index: u64, c: &Corpus) -> Session {
             }
         }
         i += 1;
+    }
+
+    // openings: the very first thing a worker (a fresh thread of a fresh process) does is FAIL on a broken relative of
+    // an item, and the next is that item itself — whatever a failed expansion leaves half-registered is then new to
+    // every table, and the healthy item is the first to meet it
+    let mut opening: Vec<Request> = Vec::new();
+    for w in 0..workers {
+        if !probes.is_empty() && r.chance(1, 2) {
+            let x = *r.pick(&probes);
+            for _ in 0..8 {
+                if let Some(b) = workload::breaker(&keys[x].clone(), &mut r) {
+                    keys.push(b);
+                    opening.push(Request { w, k: keys.len() - 1, mode: Mode::Catch });
+                    opening.push(Request { w, k: x, mode: Mode::Catch });
+                    break;
+                }
+            }
+        }
+    }
+    if !opening.is_empty() {
+        opening.extend(reqs);
+        reqs = opening;
     }
 
     // process restarts: cut the stream at seeded points; nothing is durable
@@ -1583,7 +1703,8 @@ pub fn run_batch(ctx: Arc<Ctx>, corpus: Arc<Corpus>, refs: Arc<RefCache>, seed: 
                     i
                 };
                 let s = gen_session(seed, i, &corpus);
-                let selfcheck = selfcheck_every > 0 && i % selfcheck_every == 0;
+                // (flood sessions are the costliest by far: one in five of them is run twice)
+                let selfcheck = selfcheck_every > 0 && i % selfcheck_every == 0 && (i % 12 != 8 || (i / 12) % 5 == 0);
                 check_session(&ctx, &refs, &s, &mut st, selfcheck);
             }
             st
